@@ -124,9 +124,14 @@ fn main() {
             let g: u32 = a[2].parse().unwrap_or(0);
             let n: u64 = a[3].parse().unwrap_or(10);
             let mut max_groups = 0usize;
+            let mut max_text = 0usize;
             for i in 0..n {
                 let mut t = tape::Tape::record(99, i);
                 let p = gen::generate(&mut t, g);
+                if p.fen().len() > max_text {
+                    max_text = p.fen().len();
+                    println!("{} text={} bytes", p.fen(), max_text);
+                }
                 let l = p.legal_moves();
                 let mut groups: Vec<(u8, u8)> = l.iter().map(|m| (m.from, m.promo)).collect();
                 groups.sort();
